@@ -995,6 +995,48 @@ def misassigned_uda_wells(a, b):
     return out
 
 
+def wlist_reentry(case):
+    """does some well re-enter a well list it was a member of and left (DEL, MOV away, NEW without it) earlier?"""
+    member, left = {}, set()
+    for b in case.get("blocks", []):
+        for k in b["kws"]:
+            if not k.startswith("WLIST\n"):
+                continue
+            for rec in k.split("\n")[1:]:
+                toks = re.findall(r"'([^']*)'", rec)
+                if len(toks) < 2:
+                    continue
+                ln, op, ws = toks[0], toks[1], toks[2:]
+                cur = member.setdefault(ln, set())
+                if op == "NEW":
+                    for w in cur - set(ws):
+                        left.add((w, ln))
+                    for w in ws:
+                        if (w, ln) in left and w not in cur:
+                            return True
+                    member[ln] = set(ws)
+                elif op == "ADD":
+                    for w in ws:
+                        if (w, ln) in left and w not in cur:
+                            return True
+                        cur.add(w)
+                elif op == "DEL":
+                    for w in ws:
+                        if w in cur:
+                            cur.discard(w)
+                            left.add((w, ln))
+                elif op == "MOV":
+                    for w in ws:
+                        for l2, mem in member.items():
+                            if l2 != ln and w in mem:
+                                mem.discard(w)
+                                left.add((w, l2))
+                        if (w, ln) in left and w not in cur:
+                            return True
+                        cur.add(w)
+    return False
+
+
 def key_B(attr, x, y, case, state=None, path="", other=None):
     if attr.startswith("well") and state is not None and other is not None:
         parts = path.strip("/").split("/")
@@ -1063,6 +1105,11 @@ def key_B(attr, x, y, case, state=None, path="", other=None):
         tgt = state["groups"].get(gname, {}).get("prod", {}).get(mg.group(2) + "_target")
         if tgt not in (None, "<numeric>") and other["groups"].get(gname, {}).get("prod", {}).get(mg.group(2) + "_target") == "<numeric>":
             return "B:group.uda-lost"
+    if attr.startswith("wlist_members"):
+        # membership proper.  Recorded only for the one shape that fails on the unchanged tree: a well that re-enters a
+        # list it had left before (its stale entry makes WListManager's per-well list count go wrong, and a later DEL
+        # wipes the well's list names); every other loss of a member is reported
+        return "B:wlists.reentry-after-leaving" if wlist_reentry(case) else None
     if attr.startswith("wlists"):
         return "B:wlists"
     if attr == "well.seg.inlets.len":
